@@ -39,6 +39,10 @@ func constString(e ast.Expr) (string, bool) {
 		}
 	case *ast.ParenExpr:
 		return constString(t.X)
+	case *ast.CallExpr: // a table wrapped in a constructor, e.g. newModeTable("..." + "...")
+		if len(t.Args) == 1 {
+			return constString(t.Args[0])
+		}
 	}
 	return "", false
 }
@@ -52,7 +56,7 @@ func constStrings(path string) (map[string]string, error) {
 	found := map[string]string{}
 	for _, d := range f.Decls {
 		gd, ok := d.(*ast.GenDecl)
-		if !ok || gd.Tok != token.CONST {
+		if !ok || (gd.Tok != token.CONST && gd.Tok != token.VAR) {
 			continue
 		}
 		for _, sp := range gd.Specs {
@@ -82,12 +86,12 @@ func gtable(tbl string) string {
 func writeTables(ctx *common.Ctx) {
 	code, err := constStrings(common.RepoDir() + "/code.go")
 	if err != nil {
-		ctx.Violate("translator failed to parse code.go", nil, err.Error(), nil)
+		panic("c03 translator: cannot parse code.go: " + err.Error())
 		return
 	}
 	prn, err := constStrings(common.RepoDir() + "/printer.go")
 	if err != nil {
-		ctx.Violate("translator failed to parse printer.go", nil, err.Error(), nil)
+		panic("c03 translator: cannot parse printer.go: " + err.Error())
 		return
 	}
 	var sb strings.Builder
@@ -95,7 +99,7 @@ func writeTables(ctx *common.Ctx) {
 	get := func(m map[string]string, name string) string {
 		t, ok := m[name]
 		if !ok || len(t) < 256 {
-			ctx.Violate("table not found in the source (or shorter than 256 bytes)", name, len(t), nil)
+			panic(fmt.Sprintf("c03 translator: table %s not found in the source (or shorter than 256 bytes: %d); the translator must be adapted to the new source layout", name, len(t)))
 			return strings.Repeat(".", 256)
 		}
 		return t
